@@ -8,6 +8,8 @@
   * `ceText_ne_declText_zero`     the n = 0 declaration `d[0:1:-1]` is the constraint of no read
   * `consolidate_some`            what a successful consolidation hands to the key closure
   * `store_mem_runCached`, `cacheInv_after_dmr`   the store left by the DMR phase satisfies the invariant of the patched key
+  * `computeBase_under`           every file of the collection passes the containment test against the declared base
+  * `consolidated_needs_agree`    without the agreement hypothesis the consolidated cache changes results
 -/
 import PydapModel.Consolidate
 import Proofs.Hyperslab
@@ -291,6 +293,176 @@ theorem cacheInv_after_dmr {ρ : Type} (orig : List Char → List Char) (horig :
     have := customKeyWith_orig (ub := underBase) (orig := orig) (shared := decl.shared) (base := some decl.base) hk
     exact hfun u w hu (hdmr w hw) (horig _ _ this).symm
 
+/-! ### `compute_base_url_prefix`: the declared base contains the collection -/
+
+theorem uptoLastSlash_prefix : ∀ p : List Char, uptoLastSlash p <+: p
+  | [] => List.prefix_refl _
+  | c :: cs => by
+    unfold uptoLastSlash
+    split
+    · split
+      · next hc => subst hc; exact ⟨cs, rfl⟩
+      · exact List.nil_prefix
+    · exact List.cons_prefix_cons.2 ⟨rfl, uptoLastSlash_prefix cs⟩
+
+theorem uptoLastSlash_ne_nil_of_mem : ∀ {p : List Char}, '/' ∈ p → uptoLastSlash p ≠ []
+  | c :: cs, h => by
+    unfold uptoLastSlash
+    split
+    · next hn =>
+      rcases List.mem_cons.1 h with e | e
+      · simp [← e]
+      · exact absurd hn (uptoLastSlash_ne_nil_of_mem e)
+    · simp
+
+/-- a non-empty `uptoLastSlash` ends with '/' -/
+theorem uptoLastSlash_getLast : ∀ (p : List Char), uptoLastSlash p ≠ [] → (uptoLastSlash p).getLast? = some '/'
+  | [], h => absurd rfl h
+  | c :: cs, h => by
+    by_cases hn : uptoLastSlash cs = []
+    · by_cases hc : c = '/'
+      · simp [uptoLastSlash, hn, hc]
+      · simp [uptoLastSlash, hn, hc] at h
+    · have := uptoLastSlash_getLast cs hn
+      simp only [uptoLastSlash, hn, if_false]
+      rw [List.getLast?_cons_of_ne_nil hn]
+      exact this
+
+theorem commonPrefix2_prefix_left : ∀ a b : List Char, commonPrefix2 a b <+: a
+  | [], _ => by simp [commonPrefix2]
+  | _ :: _, [] => by simp [commonPrefix2]
+  | a :: as, b :: bs => by
+    unfold commonPrefix2
+    split
+    · exact List.cons_prefix_cons.2 ⟨rfl, commonPrefix2_prefix_left as bs⟩
+    · exact List.nil_prefix
+
+theorem commonPrefix2_prefix_right : ∀ a b : List Char, commonPrefix2 a b <+: b
+  | [], _ => by simp [commonPrefix2]
+  | _ :: _, [] => by simp [commonPrefix2]
+  | a :: as, b :: bs => by
+    unfold commonPrefix2
+    split
+    · next h => subst h; exact List.cons_prefix_cons.2 ⟨rfl, commonPrefix2_prefix_right as bs⟩
+    · exact List.nil_prefix
+
+theorem commonPrefix_prefix : ∀ (l : List (List Char)) (p : List Char), p ∈ l → commonPrefix l <+: p
+  | [q], p, h => by
+    simp only [List.mem_singleton] at h; subst h; exact List.prefix_refl _
+  | q :: r :: rs, p, h => by
+    unfold commonPrefix
+    rcases List.mem_cons.1 h with e | e
+    · subst e; exact commonPrefix2_prefix_left _ _
+    · exact (commonPrefix2_prefix_right _ _).trans (commonPrefix_prefix (r :: rs) p e)
+
+theorem commonPrefix2_head {a b : List Char} {c : Char} (ha : ∃ r, a = c :: r) (hb : ∃ r, b = c :: r) :
+    ∃ r, commonPrefix2 a b = c :: r := by
+  obtain ⟨r1, rfl⟩ := ha; obtain ⟨r2, rfl⟩ := hb
+  exact ⟨commonPrefix2 r1 r2, by simp [commonPrefix2]⟩
+
+theorem commonPrefix_head {c : Char} : ∀ (l : List (List Char)), l ≠ [] → (∀ p ∈ l, ∃ r, p = c :: r) →
+    ∃ r, commonPrefix l = c :: r
+  | [q], _, h => h q (by simp)
+  | q :: r :: rs, _, h => by
+    unfold commonPrefix
+    exact commonPrefix2_head (h q (by simp)) (commonPrefix_head (r :: rs) (by simp) (fun p hp => h p (List.mem_cons_of_mem _ hp)))
+
+theorem rstripSlash_all : ∀ (s : List Char), s.all (· = '/') = true → rstripSlash s = []
+  | [], _ => rfl
+  | c :: cs, h => by
+    simp only [List.all_cons, Bool.and_eq_true, decide_eq_true_eq] at h
+    unfold rstripSlash
+    rw [rstripSlash_all cs h.2]
+    simp [h.1]
+
+theorem rstripSlash_fix : ∀ (s : List Char), s.getLast? ≠ some '/' → rstripSlash s = s
+  | [], _ => rfl
+  | [c], h => by
+    have : c ≠ '/' := by simpa using h
+    simp [rstripSlash, this]
+  | c :: d :: ds, h => by
+    have h' : (d :: ds).getLast? ≠ some '/' := by
+      rwa [List.getLast?_cons_of_ne_nil (by simp)] at h
+    have ih := rstripSlash_fix (d :: ds) h'
+    unfold rstripSlash
+    rw [ih]
+    simp
+
+theorem dirSlash_of_slash {p r : List Char} (hp : p = '/' :: r) :
+    dirSlash p = uptoLastSlash p ∧ uptoLastSlash p ≠ [] ∧ ∃ r', uptoLastSlash p = '/' :: r' := by
+  have hne : uptoLastSlash p ≠ [] := uptoLastSlash_ne_nil_of_mem (by rw [hp]; exact List.mem_cons_self)
+  refine ⟨by simp [dirSlash, hne], hne, ?_⟩
+  have hpre := uptoLastSlash_prefix p
+  rw [hp] at hpre hne ⊢
+  cases hu : uptoLastSlash ('/' :: r) with
+  | nil => exact absurd hu hne
+  | cons c cs =>
+    rw [hu] at hpre
+    have := (List.cons_prefix_cons.1 hpre).1
+    exact ⟨cs, by rw [this]⟩
+
+/-- **every file of the collection lies under the declared base**: for each URL handed to `consolidate_metadata`
+    (paths as `urlparse` gives them for a URL with a host: starting with '/'), the request path `path ++ suffix`
+    (".dap", ".dmr") passes the containment test of `custom_create_key` against the base `compute_base_url_prefix` returns -/
+theorem computeBase_under {f0 : FileIn} {files : List FileIn} {b : Base} (h : computeBase f0 files = .ok b)
+    (hslash : ∀ g ∈ files, ∃ r, g.path = '/' :: r) {f : FileIn} (hf : f ∈ files) (suffix : List Char) :
+    b.host = f0.host ∧ underBasePath b.path (f.path ++ suffix) = true := by
+  unfold computeBase at h
+  split at h
+  · cases h
+  · cases h
+    refine ⟨rfl, ?_⟩
+    simp only
+    generalize hcp : commonPrefix (files.map fun f => dirSlash f.path) = cp
+    obtain ⟨rf, hrf⟩ := hslash f hf
+    have hdf := dirSlash_of_slash hrf
+    have hcpf : cp <+: dirSlash f.path := by
+      rw [← hcp]; exact commonPrefix_prefix _ _ (List.mem_map.2 ⟨f, hf, rfl⟩)
+    have hhead : ∃ r, cp = '/' :: r := by
+      rw [← hcp]
+      refine commonPrefix_head _ (by intro e; rw [List.map_eq_nil_iff] at e; rw [e] at hf; cases hf) ?_
+      intro p hp
+      obtain ⟨g, hg, rfl⟩ := List.mem_map.1 hp
+      obtain ⟨rg, hrg⟩ := hslash g hg
+      have := dirSlash_of_slash hrg
+      rw [this.1]; exact this.2.2
+    obtain ⟨rc, hrc⟩ := hhead
+    have hu : uptoLastSlash cp ≠ [] := uptoLastSlash_ne_nil_of_mem (by rw [hrc]; exact List.mem_cons_self)
+    have hchain : uptoLastSlash cp <+: f.path ++ suffix :=
+      (uptoLastSlash_prefix cp).trans (hcpf.trans (by rw [hdf.1]; exact (uptoLastSlash_prefix _).trans (List.prefix_append _ _)))
+    unfold underBasePath
+    rw [Bool.or_eq_true]
+    right
+    rw [List.isPrefixOf_iff_prefix]
+    unfold dirname
+    split
+    · -- the common directory, trailing slashes stripped
+      have hfix : rstripSlash (rstripSlash (uptoLastSlash cp)) = rstripSlash (uptoLastSlash cp) :=
+        rstripSlash_fix _ (rstripSlash_getLast _)
+      rw [hfix]
+      obtain ⟨k, hk⟩ := rstripSlash_spec (uptoLastSlash cp)
+      have hk0 : k ≠ 0 := by
+        intro e
+        rw [e, List.replicate_zero, List.append_nil] at hk
+        have h1 := uptoLastSlash_getLast cp hu
+        rw [hk] at h1
+        exact rstripSlash_getLast _ h1
+      obtain ⟨k', rfl⟩ : ∃ k', k = k' + 1 := ⟨k - 1, by omega⟩
+      refine List.IsPrefix.trans ?_ hchain
+      refine ⟨List.replicate k' '/', ?_⟩
+      have e : rstripSlash (uptoLastSlash cp) ++ ['/'] ++ List.replicate k' '/' =
+          rstripSlash (uptoLastSlash cp) ++ List.replicate (k' + 1) '/' := by
+        simp [List.replicate_succ]
+      exact e.trans hk.symm
+    · next hcond =>
+      have hall : (uptoLastSlash cp).all (· = '/') = true := by
+        by_cases hall : (uptoLastSlash cp).all (· = '/') = true
+        · exact hall
+        · exact absurd ⟨hu, hall⟩ hcond
+      rw [rstripSlash_all _ hall, List.nil_append]
+      exact ⟨rf ++ suffix, by rw [hrf]; rfl⟩
+
+
 /-! ### examples -/
 
 def exFileA : FileIn := ⟨dap4Lit, "dap.test".toList, "/data/A.nc".toList, none, none, [("t".toList, 2)], [("t".toList, [2])]⟩
@@ -318,5 +490,57 @@ theorem exKey_elem0 :
     have h1 : ceText "t".toList [(0, 1, 0)] = declText "t".toList 2 := Option.some.inj hc
     have := (ceText_eq_declText (by decide) (by decide) (by decide) h1).2
     revert this; decide
+
+/-! ### the hypothesis of the transparency theorem is needed -/
+
+theorem keyBefore_orig (orig : List Char → List Char) (r : Req) : keyBefore orig r = Key.orig (orig r.url) := by
+  simp only [keyBefore, customKey, customKeyWith]
+  split <;> rfl
+
+theorem lookup_none {κ ρ : Type} [DecidableEq κ] (k : κ) : ∀ (store : Store κ ρ), (∀ e ∈ store, e.1 ≠ k) → lookup k store = none
+  | [], _ => rfl
+  | (k', r) :: rest, h => by
+    simp only [lookup]
+    rw [if_neg (h (k', r) List.mem_cons_self)]
+    exact lookup_none k rest (fun e he => h e (List.mem_cons_of_mem _ he))
+
+/-- a request whose key equals that of the request just before it, which missed, gets that request's answer -/
+theorem runCached_pair_hit {α κ ρ : Type} [DecidableEq κ] (key : α → κ) (server : α → ρ) (store : Store κ ρ) (u1 u2 : α)
+    (hmiss : lookup (key u1) store = none) (hk : key u2 = key u1) :
+    (runCached key server store [u1, u2]).1 = [server u1, server u1] := by
+  simp [runCached, cachedGet, hmiss, hk, lookup]
+
+theorem exKey_dim_norm : keyAfter id exDecl (dimReq exFileA "t".toList 2) =
+    Key.norm httpLit exFileA.host (exDecl.base.path ++ sharedNc) (declText "t".toList 2) := by
+  have hin : declText "t".toList 2 ∈ exDecl.shared := by simp [exDecl]
+  have hub : underBase (some exDecl.base) (dimReq exFileA "t".toList 2) = true := by decide
+  have hed : earthdataColl (dimReq exFileA "t".toList 2) = none := by decide
+  simp only [keyAfter, customKey, customKeyWith, dimReq, hin, if_true]
+  simp only [dimReq] at hub hed
+  rw [hed]
+  simp only [hub, if_true]
+
+/-- without `hagree` consolidation does change results: two files whose `t` differ (the server echoes the URL) — the whole
+    read of `t` from the second file is answered with the pre-fetched array of the first -/
+theorem consolidated_needs_agree :
+    ¬ (∀ (server : Req → List Char) (reads : List Req),
+        (∀ r1 r2 : Req, r1.url = r2.url → server r1 = server r2) →
+        (runCached (keyAfter id exDecl) server (runCached (keyBefore id) server [] (consolidate true exFiles).dmrGets).2
+            ((consolidate true exFiles).dimGets ++ reads)).1
+          = runPlain server ((consolidate true exFiles).dimGets ++ reads)) := by
+  intro hall
+  have := hall (·.url) [readReq exFileB "t".toList [(0, 1, 1)]] (fun _ _ e => e)
+  rw [exFiles_dimGets] at this
+  rw [show [dimReq exFileA "t".toList 2] ++ [readReq exFileB "t".toList [(0, 1, 1)]] =
+    [dimReq exFileA "t".toList 2, readReq exFileB "t".toList [(0, 1, 1)]] from rfl] at this
+  rw [runCached_pair_hit _ _ _ _ _ ?_ exKey_shared] at this
+  · simp only [runPlain, List.map, List.cons.injEq, and_true, true_and] at this
+    revert this; decide
+  · apply lookup_none
+    intro e he
+    rcases store_mem_runCached _ _ _ [] e.1 e.2 he with h | ⟨w, _, hk, _⟩
+    · cases h
+    · rw [hk, keyBefore_orig, exKey_dim_norm]; exact fun h => by cases h
+
 
 end Pydap.Cons
